@@ -247,7 +247,7 @@ class Exec:
         st.assume(M.is_Ref(l1), M.rcls(l1) == M.rcls(l0), M.llen(l1) == M.llen(l0) + 1,
                   M.lat(l1, M.llen(l0)) == x,
                   z3.ForAll([j], z3.Implies(z3.And(0 <= j, j < M.llen(l0)),
-                                            M.lat(l1, j) == M.lat(l0, j)), patterns=[M.lat(l1, j)]))
+                                            M.lat(l1, j) == M.lat(l0, j)), patterns=[M.lat(l1, j), M.lat(l0, j)]))
         return l1
 
     def list_concat(self, st: State, a: Any, b: Any, hint: str = "L", cls: Optional[str] = None) -> Any:
@@ -256,7 +256,7 @@ class Exec:
         st.assume(M.is_Ref(l1), M.rcls(l1) == (M.rcls(a) if cls is None else self.ct.id(cls)),
                   M.llen(l1) == M.llen(a) + M.llen(b),
                   z3.ForAll([j], z3.Implies(z3.And(0 <= j, j < M.llen(a)),
-                                            M.lat(l1, j) == M.lat(a, j)), patterns=[M.lat(l1, j)]),
+                                            M.lat(l1, j) == M.lat(a, j)), patterns=[M.lat(l1, j), M.lat(a, j)]),
                   z3.ForAll([j], z3.Implies(z3.And(0 <= j, j < M.llen(b)),
                                             M.lat(l1, M.llen(a) + j) == M.lat(b, j)),
                             patterns=[M.lat(b, j)]),
@@ -746,7 +746,8 @@ class Exec:
                 if name == "version":
                     return [(st, T(M.attr("version")(v.z), None))]
             if h is None:
-                h2 = self.refine_hint(v, st, ("UUID", "str", "list", "dict"))
+                h2 = self.refine_hint(v, st, ("UUID", "str", "list", "dict", "AnySchema", "DictSchema",
+                                              "ListSchema", "optional", "ValidationResult", "Schema"))
                 if h2 is not None:
                     return self.getattr_(T(v.z, h2), name, st, node)
             raise Unsupported(f"attribute .{name} on {v!r}")
@@ -951,6 +952,18 @@ class Exec:
                 raise Unsupported("in on object cell")
         if h is None and isinstance(container, T):
             h = self.refine_hint(container, st, ("str", "dict", "list", "set", "tuple"))
+        if h is None and isinstance(container, T):
+            # statically unknown container: fork over the kinds it may be
+            out = []
+            rest = st
+            for kind_ in ("list", "tuple", "set", "dict", "str"):
+                cond = M.isinstance_f(self.ct, container.z, kind_)
+                if self.sat(rest, cond):
+                    out += self.contains(T(container.z, kind_), item, rest.fork().assume(cond))
+                rest = rest.assume(z3.Not(cond))
+            if self.sat(rest):
+                out.append((rest, Raised("TypeError", None, "argument of this type is not iterable")))
+            return out
         if h == "str":
             ok = M.is_StrV(zi)
             out = []
@@ -993,6 +1006,10 @@ class Exec:
         if isinstance(op, ast.Add):
             if isinstance(a, Tup) and isinstance(b, Tup):
                 return [(st, Tup(a.items + b.items))]
+            if (isinstance(a, Tup) and hb == "tuple") or (ha == "tuple" and isinstance(b, Tup)) or \
+                    (ha == "tuple" and hb == "tuple"):
+                za, zb = self.term(a, st), self.term(b, st)
+                return [(st, T(self.list_concat(st, za, zb, hint="tup", cls="tuple"), "tuple"))]
             if ha == "str" and hb == "str":
                 zc = self.named_concat(st, z3.simplify(z3.Concat(M.sval(self.term(a, st)), M.sval(self.term(b, st)))))
                 return [(st, T(M.StrV(zc), "str"))]
@@ -1545,7 +1562,7 @@ class Exec:
     # ---------------------------------------------------------------- join-point merging
     def merge(self, c: Any, a: State, b: State, base_len: int) -> Optional[State]:
         """Merge the two normal continuations of an `if` (condition c holds in a, not in b)."""
-        if len(a.pc) <= base_len or len(b.pc) <= base_len:
+        if len(a.pc) <= base_len or len(b.pc) <= base_len or os.environ.get("PYVC_NO_MERGE"):
             return None
         for x, y in zip(a.pc[:base_len], b.pc[:base_len]):
             if x is not y and not z3.eq(x, y):
